@@ -5,6 +5,7 @@ import (
 	"fmt"
 	"net/http"
 	"net/url"
+	"strconv"
 	"strings"
 
 	"github.com/gookit/rux"
@@ -99,19 +100,19 @@ func urlReplay(s *Summary, raw json.RawMessage) {
 				case 0: // M map
 					m := rux.M{}
 					for k, v := range want {
-						m["{"+k+"}"] = v
+						m["{"+k+"}"] = urlArg(v)
 					}
 					for _, e := range extras[:nextra] {
-						m[e[0]] = e[1]
+						m[e[0]] = urlArg(e[1])
 					}
 					u = r.BuildURL("target", m)
 				case 1: // key/value pairs
 					args := []any{}
 					for k, v := range want {
-						args = append(args, "{"+k+"}", v)
+						args = append(args, "{"+k+"}", urlArg(v))
 					}
 					for _, e := range extras[:nextra] {
-						args = append(args, e[0], e[1])
+						args = append(args, e[0], urlArg(e[1]))
 					}
 					if len(args) == 0 {
 						u = r.BuildURL("target")
@@ -122,7 +123,7 @@ func urlReplay(s *Summary, raw json.RawMessage) {
 					b := rux.NewBuildRequestURL()
 					pm := rux.M{}
 					for k, v := range want {
-						pm["{"+k+"}"] = v
+						pm["{"+k+"}"] = urlArg(v)
 					}
 					b.Params(pm)
 					q := url.Values{}
@@ -187,6 +188,14 @@ func urlReplay(s *Summary, raw json.RawMessage) {
 			}
 		}
 	}
+}
+
+// urlArg: values are `any` in all three argument styles; a value that reads as a number is passed as a number
+func urlArg(v string) any {
+	if n, err := strconv.Atoi(v); err == nil && strconv.Itoa(n) == v {
+		return n
+	}
+	return v
 }
 
 func urlNames(s *Summary, c *urlCase) {
